@@ -405,19 +405,41 @@ PROPS = {
     "C08": {
         "category": "other",
         "harness_modes": ["crosscheck"],
-        "explanation": "Fragment. Proved for the base Token: save() writes the token at most once (a token that already has an id, or whose save is in flight, is not written "
+        "explanation": "Fragment: the save / load PAIRS that are straight-line code are proved, each round trip as a lemma over the two contracts of the pair. "
+        "(1) contracts/C08.py — the base Token: save() writes the token at most once (a token that already has an id, or whose save is in flight, is not written "
         "again; the second saver returns only after the first one has set its event; the event is set on every way out, by try/finally), the one add_token call carries exactly the "
         "token's own tag, value, recoverable flag and the given port, and the token takes the id the database hands out; Token._load builds a fresh token with exactly the tag, "
-        "value and recoverable flag of the row and no persistent id. Together: a plain token saved and loaded has the same type-independent fields. NOT decided by proof: the ~40 "
-        "other _save_additional_params / _load pairs (steps, ports, combinators, CWL processors and commands), container tokens, Workflow.load's wiring, the loading contexts. "
+        "value and recoverable flag of the row and no persistent id. "
+        "(2) contracts/C08_config.py — Config.save/load, WrapsConfig.save/load (the optional `service` key is written exactly when there is a service and read back as None "
+        "when absent), FilterConfig.save/load, DeploymentConfig.save/load (all eight fields, the two nested configurations as the rows their own save() produces), Target.save "
+        "(saves its deployment first and stores ITS id with the target's own locations, service and working directory), Target._load, LocalTarget._load, against ghost tables "
+        "id -> row (records); lemmas config_round_trip, wraps_round_trip, filter_round_trip, deployment_round_trip, target_round_trip: the loaded object has the same fields. "
+        "Every three-branch save() is proved to write at most once, to keep an id once assigned, and to return only with an id (the second saver resumes from Event.wait, "
+        "modelled as a yield point with a stated rely condition). "
+        "(3) contracts/C08_steps.py — Port.save, Port._load and, for GatherStep, ScatterStep, TransferStep, InputInjectorStep, DeployStep, CombinatorStep: the constructor "
+        "(which port is wired under which name, registered in the workflow without replacing a port of that name), _save_additional_params (the params dict as a record: exactly "
+        "the keys, each carrying the field / the persistent id it should; GatherStep, ScatterStep and DeployStep save what they refer to first, so the stored id is never None) and "
+        "_load (every key goes to the constructor argument it came from; ports are resolved through the loading context and referred to by name); lemmas "
+        "gather/scatter/transfer/input_injector/deploy/combinator_step_round_trip: same name, depth, deployment, combinator, and the port wired under each name is the port the "
+        "context loads from the id it was saved under. "
+        "(4) contracts/C08_tokens.py — ListToken._save_value (every element is saved first; one id per element, in list order, repetitions kept, none of them None) and "
+        "ListToken._load (position j is the token the context loads from id j); lemma list_token_round_trip. asyncio.gather(*(create_task(f(x)) for x in xs)) is read as a "
+        "list comprehension when f is a pure lookup, and as a call of the PROVED lemma gather_save (ghost loop over Token.save) when f is save(). "
+        "NOT decided by proof: the other pairs whose code is a concurrent map over a dict or builds dicts with zip (Combinator.save/load and its subclasses, ObjectToken, "
+        "ExecuteStep, BindingConfig, ScheduleStep, Workflow.save/load, Step.save/load), CWL processors, commands and transformers, Job/JobToken, the loading contexts, the SQL. "
         "Covered, bounded, by harness/C08.py: random token trees (nested list/object tokens over JSON values with unicode, the same token instance reachable from two containers "
-        "and saved concurrently) and random workflow graphs (scatter, gather, combinator and loop-combinator steps with nested dot / cartesian / loop combinators, plain / job / "
-        "connector ports) are saved and loaded twice through fresh contexts, compared structurally, edited in place to check independence, and deep-copied through the "
-        "WorkflowBuilder. CWL entity types are not generated. One port wired twice to a step does not survive (recorded finding).",
+        "and saved concurrently), random workflow graphs (scatter, gather, combinator and loop-combinator steps with nested dot / cartesian / loop combinators, plain / job / "
+        "connector ports), random targets / deployments (wraps, policies, working directories with blanks, empty-string services) / filters and workflows with deploy and schedule "
+        "steps are saved and loaded twice through fresh contexts, compared structurally, edited in place to check independence, and deep-copied through the "
+        "WorkflowBuilder; CWL processor trees are compared attribute by attribute. One port wired twice to a step does not survive (recorded finding).",
         "assumptions": [
-            "extern contracts: Database.add_token records its arguments and hands out the next id; asyncio.Event; Token._save_value returns the value (plain tokens)",
-            "rows are records with the columns tag / value / recoverable",
-            "Token._load is verified with cls = Token",
+            "extern contracts: Database.add_token / add_filter / add_deployment / add_target / add_port store exactly their keyword arguments under a fresh id and get_<x> returns the stored row (SQL and the JSON column encoding are not modelled); asyncio.Event; Token._save_value returns the value (plain tokens)",
+            "A-JSON-RECORD rows and params dicts are records with the declared key vocabulary; a dict literal is an instance of the record class the unit is declared to return",
+            "A-YIELD Event.wait is the only modelled yield point of save(): on resumption the entity whose _saving is this event has an id, and ids once assigned never change (rely condition; the first-saver path is proved to establish it); other interference during `await` is not modelled",
+            "loading contexts: load_port / load_workflow / load_deployment are functions of the persistent id (spec functions loaded_*); Combinator.save / Combinator.load are assumed functions (saved_combinator / loaded_combinator); Workflow.create_port returns a fresh registered port",
+            "A-GATHER-SEQ asyncio.gather over create_task(...) is modelled as running the tasks one after the other in list order (interleavings at the tasks' await points are not modelled); Token.save's summary in contracts/C08_tokens.py (returns with an id; ids stable) is an extern there and proved in contracts/C08.py only for the id part",
+            "`{} | d` is d (A-NOALIAS); Token._load / Port._load / <Step>._load are verified with cls = the class itself",
+            "TransferStep / InputInjectorStep store the id the job port has NOW: the round-trip lemmas assume the port has been saved (Workflow.save saves ports before steps; that call order is not under contract)",
         ],
     },
 }
